@@ -1508,7 +1508,13 @@ class SymEx:
                 x.env[t.value.id] = ('havoc', '%s.%s=' % (t.value.id, t.attr), self.site(node))
             else:
                 x.env[t.value.id] = ('new', rec[1], tuple(sorted([(k_, v_) for k_, v_ in rec[2] if k_ != t.attr] + [(t.attr, v)])))
-            if not silent:
+            # the same object may be held in a field (ledger = self._ledger ; ledger.balance = v): the field's record changes with it
+            held = [l_ for l_, hv_ in st.heap.items() if hv_ is rec and l_[0] == 'attr']
+            for l_ in held:
+                x.heap[l_] = x.env[t.value.id]
+                if not silent:
+                    x = x.ev(Ev('write', loc=('attr', l_, t.attr), value=v, how=how, site=self.site(node), fn=self.fn.qn, old=dict(rec[2]).get(t.attr), delta=delta))
+            if not silent and not held:
                 x = x.ev(Ev('write', loc=('attr', ('var', t.value.id), t.attr), value=v, how=how, site=self.site(node), fn=self.fn.qn, old=old, delta=delta, local=True))
             return x
         if isinstance(t, ast.Subscript) and isinstance(t.value, ast.Attribute) and isinstance(t.value.value, ast.Name) and t.value.value.id in st.env:
@@ -2432,6 +2438,13 @@ class SymEx:
                     vals[n] = r_[0][1]
                     if vals[n][0] == 'call' and vals[n][1][0] == 'ext' and vals[n][1][1].endswith('field'):
                         df = dict(vals[n][3]).get('default')
+                        fac = dict(vals[n][3]).get('default_factory')
+                        if df is None and fac in (('ext', 'builtins.list'), ('ext', 'LIST')):
+                            df = ('list', ())           # field(default_factory=list): a fresh empty list per object
+                        elif df is None and fac in (('ext', 'builtins.dict'), ('ext', 'DICT')):
+                            df = ('dict', ())
+                        elif df is None and fac in (('ext', 'builtins.set'), ('ext', 'SET')):
+                            df = ('set', ())
                         if df is None:
                             ok = False
                             break
@@ -2612,7 +2625,20 @@ class SymEx:
                         if k_[0] == 'attr' and k_[1] == obj:
                             fields.append((k_[2], s_.heap.pop(k_)))
                     newt = ('new', rc.name, tuple(sorted(fields)))
-                    s_.events = tuple(e_ for e_ in s_.events if not (e_.kind == 'write' and e_.loc[0] == 'attr' and e_.loc[1] == obj))
+                    held = [l_ for l_, hv_ in st.heap.items() if hv_ is recv and l_[0] == 'attr']
+                    if held:
+                        # the record is (also) held in a field: what the method wrote is written to that field's record - seen by everybody who reads the field
+                        l0 = held[0]
+                        for l_ in held:
+                            s_.heap[l_] = newt
+                        for e_ in s_.events:
+                            if e_.kind == 'write' and _mentions(e_.loc, obj):
+                                e_.d['loc'] = T.replace(e_.loc, lambda t: l0 if t == obj else None)
+                                if e_.d.get('value') is not None and _mentions(e_.d['value'], obj):
+                                    e_.d['value'] = T.replace(e_.d['value'], lambda t: l0 if t == obj else None)
+                                e_.d['local'] = False
+                    else:
+                        s_.events = tuple(e_ for e_ in s_.events if not (e_.kind == 'write' and e_.loc[0] == 'attr' and e_.loc[1] == obj))
                     s_.env = {k_: (newt if v_ is recv else (T.replace(v_, lambda t: newt if t == obj else None) if _mentions(v_, obj) else v_)) for k_, v_ in s_.env.items()}
                     if _mentions(rv, obj):
                         rv = T.replace(rv, lambda t: newt if t == obj else None)
@@ -2745,7 +2771,20 @@ class SymEx:
                          result=res, node=e, recv=recv, kwargs=dict(kwargs)))
             if f.attr in MUTATORS or (f.attr == 'get' and _is_queue(self.M, fn, f.value, self.tenv(), recv)):
                 local = isinstance(f.value, ast.Name) and f.value.id in x.env and _is_local_container(x.env[f.value.id])
-                x = x.ev(Ev('write', loc=recv if not local else ('var', f.value.id), value=res, how='mut:' + f.attr, site=site, fn=fn.qn,
+                wloc = recv if not local else ('var', f.value.id)
+                if not local and isinstance(f.value, ast.Attribute) and _is_local_container(recv) and not self.suppress:
+                    # obj.field.append(v) where the field is known to hold a container built on this path: the write is to the FIELD (its location), whose
+                    # content grows accordingly
+                    try:
+                        (x_l, lt_), = self.loc(f.value, x)[:1]
+                    except Exception:
+                        lt_ = None
+                    if lt_ is not None and lt_ != recv and x.heap.get(lt_) == recv:
+                        wloc = lt_
+                        if f.attr == 'append' and recv[0] == 'list' and len(args) == 1 and not kws:
+                            x = x.copy()
+                            x.heap[lt_] = ('list', recv[1] + (args[0],))
+                x = x.ev(Ev('write', loc=wloc, value=res, how='mut:' + f.attr, site=site, fn=fn.qn,
                             old=None, delta=None, local=local))
                 if local:
                     opn = {'append': 'APPENDED', 'add': 'APPENDED', 'update': 'UPDATED', 'extend': 'EXTENDED'}.get(f.attr, 'MUTATED_' + f.attr)
